@@ -1,6 +1,6 @@
 (* C03: diff entries are independent per field; skipped fields are never touched. *)
 From Coq Require Import List ZArith Permutation.
-Require Import R.DModel3 R.DProofs4 R.DProofs6 Inst.DeriveInst G.GlueAll.
+Require Import R.DModel3 R.DSetters R.DProofs4 R.DProofs6 Inst.DeriveInst G.GlueAll.
 Section C03.
 Variable ko : bool.
 Variable iter_order : list (Z * value) -> list (Z * value).
